@@ -172,6 +172,9 @@ func (r *bungeeCordMessageResponder) prepareForwardMessage(in io.Reader) (forwar
 	if err != nil {
 		return
 	}
+	if messageLen < 0 {
+		return // the length is a signed short in BungeeCord's wire format
+	}
 	msg := make([]byte, messageLen)
 	_, err = io.ReadFull(in, msg)
 	if err != nil {
@@ -179,7 +182,7 @@ func (r *bungeeCordMessageResponder) prepareForwardMessage(in io.Reader) (forwar
 	}
 
 	forwarded := new(bytes.Buffer)
-	forwarded.WriteString(channel)
+	_ = util.WriteUTF(forwarded, channel)
 	_ = util.WriteInt16(forwarded, messageLen)
 	forwarded.Write(msg)
 	return forwarded.Bytes()
